@@ -422,7 +422,7 @@ pub fn run(kv: &Args) -> i32 {
         //      a class-stratified seeded sample goes to the Coq model
         let mut r = rng(seed, "c20-sample");
         let quota3 = if kv.thorough() { 120 } else { 30 };
-        let quota4 = if kv.thorough() { 100 } else { 18 };
+        let quota4 = if kv.thorough() { 100 } else { 14 };
         for (fam, (n, base, total, quota)) in [(3usize, 3u32, 19683u32, quota3), (4usize, 2u32, 65536u32, quota4)].iter().enumerate() {
             // reservoir sample per class
             let mut res: Vec<Vec<u32>> = vec![Vec::new(); 6];
@@ -487,7 +487,7 @@ pub fn run(kv: &Args) -> i32 {
         let mut r = rng(seed, "c20-random");
         let mult = if kv.thorough() { 8 } else { 1 };
         for n in 1..=8usize {
-            let per_kind = mult * match n { 1 => 2, 2..=3 => 6, 4 => 4, _ => 1 };
+            let per_kind = match n { 1 => 2 * mult, 2..=3 => 6 * mult, 4 => 4 * mult, 5..=6 => mult, _ => if kv.thorough() { 3 } else { 1 } };
             for kind in KINDS.iter() {
                 for _ in 0..per_kind {
                     cases.push((kind.to_string(), n, gen_matrix(&mut r, kind, n)));
